@@ -508,10 +508,10 @@ func p14GenValue(r *rng, t *p14t, full bool) *p14v {
 // ---- observations ----
 
 type c14Mismatch struct {
-	Kind     string `json:"kind"`  // "print"
-	Class    string `json:"class"` // which family of operands
-	Depth    int    `json:"depth"` // nesting depth of the deepest operand
-	Deep     bool   `json:"deep"`  // depth >= 3
+	Kind     string `json:"kind"`    // "print"
+	Class    string `json:"class"`   // which family of operands
+	Depth    int    `json:"depth"`   // nesting depth of the deepest operand
+	Deep     bool   `json:"deep"`    // depth >= 3
 	Symptom  string `json:"symptom"` // elided ([...] / map[...] / &{...} in the output) | error | differs
 	Via      string `json:"via"`     // host-api | script
 	Src      string `json:"src"`
